@@ -42,6 +42,8 @@ STANDINS = [
     "harness stand-in: records calls only: standin::unsafe_table::contains in the decision harnesses (an independent symbolic bool per token identity, calls counted, "
     "asking about a token other than the statement token is recorded); the real lookup RangeTable::{insert,begin,get,contains} + TokenRange::include is under contract separately; "
     "not covered: the thread_local/RefCell wrapper of unsafe_table.rs and that unsafe_table::begin/end are called with the block's first/last token",
+    "harness stand-in: vpmap::HashMap for the analyzer's HashMap alias (fxhash::FxHashMap) inside the extracted RangeTable: finite-map semantics assumed "
+    "(entry/and_modify/or_insert/get as an association list); hashbrown itself does not finish in CBMC",
     "harness stand-in: records calls only: ClockDomain::to_string -> standin::DomText (real: Display impl doing a symbol_table lookup; only feeds the message text)",
     "module crate::r#unsafe is emitted as crate::unsafe_kind; parser items are emitted in crate::parser_types (names only; the items are the extracted text)",
     "not covered: that every assignment/connection site calls check_clock_domain / check_assign_clock_domain, domain propagation through conv/ir expression code",
@@ -56,7 +58,9 @@ def expand(text):
 BOUNDS = {
     "assign_contract_one_condition": "condition_domains.len() == 1",
     "assign_contract_two_conditions": "condition_domains.len() == 2",
-    "range_table_contains_iff_inside_some_range": "<= 2 recorded ranges, <= 1 open block, file ids from {3,5} (ranges) / {3,5,9} (token)",
+    "range_table_contains_iff_inside_some_range_0": "0 recorded ranges, <= 1 open block; HashMap replaced by an association-list stand-in",
+    "range_table_contains_iff_inside_some_range_1": "1 recorded range, <= 1 open block; HashMap replaced by an association-list stand-in",
+    "range_table_get_counts_enclosing_ranges_2": "2 recorded ranges (same or different files), <= 1 open block; HashMap replaced by an association-list stand-in",
 }
 
 
@@ -92,7 +96,7 @@ def build(ctx, res):
     checker = ["pub mod checker {", CHECKER_USE, take(chk.item("fn", "check_clock_domain")), take(utl.item("fn", "check_assign_clock_domain")), "}"]
 
     raw = ctx.unit_file("cdc", "harness.rs")
-    lib = "\n".join(["pub type HashMap<K, V> = fxhash::FxHashMap<K, V>;"] + parser_types + symbol + unsafe_kind + range_table + checker + [expand(raw)]) + "\n"
+    lib = "\n".join(["pub use crate::vpmap::HashMap;"] + parser_types + symbol + unsafe_kind + range_table + checker + [expand(raw)]) + "\n"
 
     hs = []
     for kind, n in re.findall(r"#\[vp_(proof|bounded)\]\s*pub fn (\w+)", raw):
@@ -129,4 +133,4 @@ def build(ctx, res):
                         "contract": "n_errors == (if !may_move(model(lhs), model(rhs)) && !token.in_unsafe_cdc {1} else {0}); last error == (lhs, rhs)"})
     res.samples.append({"obligation": "kani:cdc:include_is_closed_interval_in_file",
                         "contract": "include(path,line,column) == (in_file(beg.source,path) && pos_le(beg,(line,column)) && pos_le((line,column),end)) for beg <= end"})
-    return [KaniJob("cdc", lib, hs, deps={"fxhash": '"0.2.1"'}, items=items, trusted=TRUSTED, jobs=4, timeout=1500, per_harness_timeout=400)]
+    return [KaniJob("cdc", lib, hs, deps={}, items=items, trusted=TRUSTED, jobs=4, timeout=1500, per_harness_timeout=400)]
